@@ -88,6 +88,18 @@ Theorem C02_map_keeps_its_other_keys : forall f e members m k0 r,
   exists m', r = VMap m' /\ In k0 (map fst m').
 Proof. intros f e members m k0 r Hin H. cbn [dec is_null] in H. exact (map_loop_merges (dec f e) (zero e) k0 members m r Hin H). Qed.
 
+(* what the document does not address keeps its value: a struct field no key selects, a map key the document does
+   not mention (also the value-level reading of C07: storage the document does not address keeps its contents) *)
+Theorem C02_field_not_addressed_keeps_its_value : forall f fs i members cur r,
+  not_addressed fs i members = true ->
+  dec (S f) (TStruct fs) (JObj members) (VStruct cur) = DOk (VStruct r) -> nth i r VNil = nth i cur VNil.
+Proof. intros f fs i members cur r Hn H. cbn [dec is_null] in H. exact (struct_field_not_addressed_keeps_value (dec f) fs i members cur r Hn H). Qed.
+
+Theorem C02_map_key_not_mentioned_keeps_its_value : forall f e k0 members m m',
+  not_mentioned k0 members = true ->
+  dec (S f) (TMap e) (JObj members) (VMap m) = DOk (VMap m') -> value_of k0 m' = value_of k0 m.
+Proof. intros f e k0 members m m' Hn H. cbn [dec is_null] in H. exact (map_key_not_mentioned_keeps_value (dec f e) (zero e) k0 members m m' Hn H). Qed.
+
 (* the statements are about something: a slice of structs keeps the field the document does not mention, a short
    array is zeroed behind the text, a repeated key decodes twice, an out-of-range integer is an error *)
 Example C02_example :
